@@ -281,7 +281,12 @@ func c15Clone(r *rand.Rand, t reflect.Type, fieldIdx int, tmpl bool) Case {
 			// what a listener prints of an action is its String(): a structurally equal clone describes itself in the same
 			// words (addresses of pointers, if any are printed, are masked)
 			if !tmpl && after == before {
-				mask := func(s string) string { return c15AddrRe.ReplaceAllString(s, "0xADDR") }
+				// (names of child actions are listed in map order: the words of the description are compared as a multiset)
+				mask := func(s string) string {
+					ws := strings.FieldsFunc(c15AddrRe.ReplaceAllString(s, "0xADDR"), func(c rune) bool { return c == ',' || c == ' ' || c == '[' || c == ']' || c == '=' })
+					sort.Strings(ws)
+					return strings.Join(ws, " ")
+				}
 				if so, sc := mask(act.String()), mask(cl.String()); so != sc {
 					descFail = fmt.Sprintf("the clone describes itself as %q, the original as %q", sc, so)
 				}
